@@ -123,18 +123,25 @@ func runC10(r *Run, p *Prog) {
 				f, d := counterDelta(ro, st)
 				return f == m.Counter && d == -1
 			}
-			lo, hi := NewPathCounter(p, isDec).Summary(l)
-			r.Ob("S3", fn, "the connection is released (counter decremented) exactly once on every path", l.Pos(), lo == 1 && hi == 1,
+			entry := l
+			for _, e := range ro.ConnEntry {
+				if cg.Reach([]*ssa.Function{e}, false)[l] {
+					entry = e
+				}
+			}
+			efn := shortName(entry)
+			lo, hi := NewPathCounter(p, isDec).Summary(entry)
+			r.Ob("S3", efn, "the connection is released (counter decremented) exactly once on every path", entry.Pos(), lo == 1 && hi == 1,
 				fmt.Sprintf("between %d and %d decrements on the paths through the handler: after the peer disappears on some path the connection stays counted, so the service cannot time out", lo, hi))
 			isDone := func(in ssa.Instruction) bool {
 				ci, ok := in.(ssa.CallInstruction)
 				return ok && calleeName(ci.Common()) == "sync.WaitGroup.Done"
 			}
-			lo, hi = NewPathCounter(p, isDone).Summary(l)
-			r.Ob("S3", fn, "wg.Done() exactly once on every path", l.Pos(), lo == 1 && hi == 1, fmt.Sprintf("between %d and %d calls: the serving call cannot drain (shutdown hangs) or panics", lo, hi))
+			lo, hi = NewPathCounter(p, isDone).Summary(entry)
+			r.Ob("S3", efn, "wg.Done() exactly once on every path", entry.Pos(), lo == 1 && hi == 1, fmt.Sprintf("between %d and %d calls: the serving call cannot drain (shutdown hangs) or panics", lo, hi))
 			// the release is deferred before anything that can fail: the first call-like instruction is the defer
 			var first ssa.Instruction
-			for _, in := range l.Blocks[0].Instrs {
+			for _, in := range entry.Blocks[0].Instrs {
 				switch in.(type) {
 				case *ssa.Call, *ssa.Defer, *ssa.Go:
 					if first == nil {
@@ -150,31 +157,12 @@ func runC10(r *Run, p *Prog) {
 					okFirst = a == 1 && b == 1
 				}
 			}
-			r.Ob("S3", fn, "the release is deferred as the handler's first action", l.Pos(), okFirst,
+			r.Ob("S3", efn, "the release is deferred as the handler's first action", entry.Pos(), okFirst,
 				"the release is not the first deferred action: a panic or return before it leaves the connection counted for ever")
 			// per-connection context cancelled on exit
-			var cancelDefer *ssa.Defer
-			var derived string
-			for _, b := range l.Blocks {
-				for _, in := range b.Instrs {
-					if d, ok := in.(*ssa.Defer); ok {
-						if ex, ok := d.Call.Value.(*ssa.Extract); ok && ex.Index == 1 {
-							if c, ok := ex.Tuple.(*ssa.Call); ok && (calleeName(&c.Call) == "context.WithCancel" || calleeName(&c.Call) == "context.WithTimeout" || calleeName(&c.Call) == "context.WithDeadline") {
-								cancelDefer = d
-								derived = "ext(" + T.T(c) + ",0)"
-							}
-						}
-					}
-				}
-			}
-			okCancel := cancelDefer != nil
-			if okCancel {
-				okCancel, _ = everyPathPasses(l, nil, func(i ssa.Instruction) bool { return i == ssa.Instruction(rb) || isReturn(i) }, func(i ssa.Instruction) bool { return i == ssa.Instruction(cancelDefer) })
-			}
+			okCancel, whyCancel := connCtxCancelOnExit(p, T, cg, l, rb)
 			r.Ob("S3", fn, "the per-connection context is derived with cancel and the cancel is deferred before the loop", l.Pos(), okCancel,
-				"no deferred cancel of a derived context dominates the read loop and the returns: helper goroutines and timers of the connection outlive it")
-			r.Ob("S3", fn, "frames are read under the per-connection context", rb.Pos(), derived != "" && T.T(rb.Call.Args[1]) == derived,
-				"the frame read uses "+strip(T.T(rb.Call.Args[1]))+", not the derived per-connection context "+strip(derived))
+				"helper goroutines and timers of the connection can outlive it: "+whyCancel)
 			// close on every normal exit
 			noClose, w := reachInstr(l, nil, isReturn, func(in ssa.Instruction) bool {
 				c, ok := in.(ssa.CallInstruction)
@@ -196,7 +184,7 @@ func runC10(r *Run, p *Prog) {
 			r.Ob("S4", shortName(entry), "the request is decoded into a fresh zero value (null => empty call)", d.Call.Pos(), ok, why)
 		}
 		var hf []*ssa.Function
-		for f := range cg.Reach(ro.ConnLoop, false) {
+		for f := range cg.Reach(ro.ConnEntry, false) {
 			if fnPkgPath(f) == pkgVarlink {
 				hf = append(hf, f)
 			}
@@ -288,7 +276,7 @@ func runC10(r *Run, p *Prog) {
 	})
 	// ---- S5
 	r.Guard("S5", func() {
-		fns := cg.Reach(ro.ConnLoop, true)
+		fns := cg.Reach(ro.ConnEntry, true)
 		n := panicCensus(r, p, T, "S5", fns)
 		r.Stat("S5_panic_sites", n)
 		r.Floor("S5", 5)
